@@ -489,7 +489,12 @@ class Exporter {
       else if (isa<CStyleCastExpr>(EC)) o["ck"] = "cstyle";
       else o["ck"] = "other";
       o["cast"] = EC->getCastKindName();
-      o["from"] = typeStr(EC->getSubExpr()->getType());
+      {
+        // the operand type *before* the implicit conversion that the explicit cast subsumes (static_cast<uint8_t>(a + b):
+        // the operand is `a + b` of type unsigned int, not the already converted uint8_t)
+        const Expr *inner = strip(EC->getSubExpr());
+        o["from"] = typeStr(inner ? inner->getType() : EC->getSubExpr()->getType());
+      }
       o["sub"] = expr(EC->getSubExpr());
       setConst(o, E);
       return std::move(o);
